@@ -64,6 +64,9 @@ def build(clsname, topo, rname, wname, ctx, second_reader=None):
     writes = DICT_WRITES if k == "dict" else LIST_WRITES
     ckey = "c" if k == "dict" else 1
     missing = topo == "two-objects-missing-file"
+    fresh = topo == "two-objects-fresh"  # neither object has loaded anything when the threads start
+    if fresh and (rname == "nav-read" or wname == "child-setitem"):
+        return None
     if missing and (rname == "nav-read" or wname == "child-setitem" or rname in ("getitem", "eq") or wname in ("delitem", "reset")):
         return None
     if topo == "same-object":
@@ -85,12 +88,16 @@ def build(clsname, topo, rname, wname, ctx, second_reader=None):
     if second_reader:
         threads.append(inst(reads[second_reader], rmap))
         names.append(second_reader)
-    if missing:
+    if missing or fresh:
         prefix = ()
     cfg = seq.Config(clsname, initial=(env.ABSENT if missing else INIT[k],), objects=objects, prefix=prefix, label=clsname)
     return {"label": "%s/%s/%s/%s" % (clsname, topo, "ctx" if ctx else "noctx", "||".join(names)), "cfg": cfg,
             "ctx": ctx, "threads": threads, "pair": "r:%s||w:%s" % (rname, wname) + ("||r:" + second_reader if second_reader else ""),
-            "topology": topo, "property": PROPERTY, "module": __name__, "final_views": False}
+            "topology": topo, "property": PROPERTY, "module": __name__,
+            # after the threads have finished every object must show the final content (a reader that cached what it saw
+            # during the race would not); same-object programs are dominated by the open finding D17 anyway
+            "final_views": topo != "same-object"}
+
 
 
 def plan(tier, seed):
@@ -103,7 +110,8 @@ def plan(tier, seed):
             k = env.kind_of(c)
             rs = CORE_R[k] if tier == "quick" else tuple(DICT_READS if k == "dict" else LIST_READS)
             ws = CORE_W[k] if tier == "quick" else tuple(DICT_WRITES if k == "dict" else LIST_WRITES)
-            for topo in ("same-object", "two-objects", "two-objects-missing-file"):
+            for topo in ("same-object", "two-objects", "two-objects-missing-file") + \
+                    (("two-objects-fresh",) if (ctx is None or tier != "quick") else ()):
                 for r in rs:
                     for w in ws:
                         pr = build(c, topo, r, w, ctx)
